@@ -181,6 +181,7 @@ class Executor(ExprMixin, ContainerMixin, CallMixin, StmtMixin, ObjectMixin):
         self.h_entry = h0
         self.args_entry = Args(dict(svs))
         x0 = Ctx(self, h0, h0, self.args_entry, family=self.family)
+        self.T_entry = x0.T
         for rname, rfn in c.requires_:
             p.assume(rfn(x0))
         if self.contract.is_generator:
